@@ -136,12 +136,36 @@ pub struct Case {
     /// carries the slow queueing channel, is connected last
     #[serde(default)]
     pub via_relay: bool,
+    /// a processing element of the global stack panics in its `incoming` hook for the k-th message it sees (this is
+    /// outside the per-module panic handling: run() unwinds); everything still has to be released exactly once
+    #[serde(default)]
+    pub pe_panic: Option<u8>,
 }
 
 pub struct C20;
 
 struct PE(#[allow(dead_code)] Tok);
 impl ProcessingElement for PE {}
+
+thread_local! {
+    /// messages seen by panicking elements / the count at which they panic (0 = never)
+    static PE_SEEN: std::cell::Cell<u32> = const { std::cell::Cell::new(0) };
+    static PE_PANIC_AT: std::cell::Cell<u32> = const { std::cell::Cell::new(0) };
+}
+
+struct PanickyPE(#[allow(dead_code)] Tok);
+impl ProcessingElement for PanickyPE {
+    fn incoming(&mut self, msg: Message) -> Option<Message> {
+        let n = PE_SEEN.with(|c| {
+            c.set(c.get() + 1);
+            c.get()
+        });
+        if n == PE_PANIC_AT.with(|c| c.get()) {
+            panic!("injected fault in a processing element");
+        }
+        Some(msg)
+    }
+}
 
 struct M {
     #[allow(dead_code)]
@@ -248,10 +272,16 @@ pub fn run_case(case: &Case) -> Result<(bool, Vec<&'static str>), Failure> {
     STALE.with(|s| s.set(0));
     let n = case.mods.len().clamp(1, 8);
     let stack = case.stack % 3;
+    PE_SEEN.with(|c| c.set(0));
+    PE_PANIC_AT.with(|c| c.set(case.pe_panic.map_or(0, |k| k as u32 % 6 + 1)));
+    let panicky = case.pe_panic.is_some();
     let mut sim = Sim::new(()).with_stack(move || {
         let mut s = ProcessingStack::default();
         for _ in 0..stack {
             s.append(PE(Tok::new("processing element")));
+        }
+        if panicky {
+            s.append(PanickyPE(Tok::new("processing element (panics in incoming)")));
         }
         s
     });
@@ -392,20 +422,24 @@ pub fn run_case(case: &Case) -> Result<(bool, Vec<&'static str>), Failure> {
                     rt.handle_message_on(target.clone(), Message::default().id(j as u16).with_content(body), st(*t as u128 * 1_000_000 + 700 + j as u128));
                 }
             }
-            let res = match catch(|| rt.run()) {
-                Ok(r) => r,
-                Err((msg, loc)) => vfail!("simulator-aborted", "run() unwound: {msg} @ {loc}"),
-            };
-            match &res {
-                Ok((_, _, p)) => {
-                    if !p.remaining.is_empty() {
-                        pending_at_stop = true;
-                        labels.push("events-pending-at-stop");
+            match catch(|| rt.run()) {
+                Ok(res) => {
+                    match &res {
+                        Ok((_, _, p)) => {
+                            if !p.remaining.is_empty() {
+                                pending_at_stop = true;
+                                labels.push("events-pending-at-stop");
+                            }
+                        }
+                        Err(_) => labels.push("run-ended-with-error"),
                     }
+                    drop(res);
                 }
-                Err(_) => labels.push("run-ended-with-error"),
+                // a panic of a processing element is not contained by the module harness: run() unwinds and takes the
+                // runtime with it; what it owned has to be released all the same
+                Err((msg, _)) if msg.contains("injected fault in a processing element") => labels.push("run-unwound-by-a-processing-element-panic"),
+                Err((msg, loc)) => vfail!("simulator-aborted", "run() unwound: {msg} @ {loc}"),
             }
-            drop(res);
         }
     }
     let total = check_registry(&format!("after dropping everything ({:?})", case.stop))?;
@@ -515,9 +549,11 @@ impl Prop for C20 {
             stop,
             prop_oneof![2 => Just(Vec::new()), 1 => proptest::collection::vec(block, 1..3)],
             proptest::bool::weighted(0.4),
+            proptest::option::weighted(0.15, 0u8..6),
         )
-            .prop_map(|(mods, stack, ring, bitrate, stop, blocks, via_relay)| Case {
+            .prop_map(|(mods, stack, ring, bitrate, stop, blocks, via_relay, pe_panic)| Case {
                 via_relay,
+                pe_panic,
                 blocks,
                 mods,
                 stack,
